@@ -27,7 +27,7 @@ use temporal_rs::time::EpochNanoseconds;
 use temporal_rs::tzdb::FsTzdbProvider;
 use temporal_rs::*;
 
-pub const N_OPS: u16 = 118;
+pub const N_OPS: u16 = 119;
 
 #[derive(Serialize, Deserialize, Debug, Clone)]
 pub enum ZoneArg {
@@ -449,7 +449,14 @@ pub fn run_op(c: &Case) -> R {
         }
         58 => r(Instant::from_str(&a.text)),
         // ---- Duration
-        59 => r(duration_from_f64s(&a.f)),
+        59 => {
+            // any duration the constructor lets through (fields need not be integral) prints through `Display`, whose
+            // impl `expect`s the result of the explicit string method
+            let d = okk!(duration_from_f64s(&a.f));
+            let _ = d.to_string();
+            let _ = format!("{d:?}");
+            r(d.as_temporal_string(sopts(a)))
+        }
         60 => {
             let mut p = PartialDuration::default();
             let flds = [&mut p.years, &mut p.months, &mut p.weeks, &mut p.days, &mut p.hours, &mut p.minutes, &mut p.seconds, &mut p.milliseconds, &mut p.microseconds, &mut p.nanoseconds];
@@ -490,6 +497,10 @@ pub fn run_op(c: &Case) -> R {
             let t = okk!(TimeDuration::new(ff(a.f[4]), ff(a.f[5]), ff(a.f[6]), ff(a.f[7]), ff(a.f[8]), ff(a.f[9])));
             let d = Duration::from_day_and_time(ff(a.f[3]), &t);
             let p = TableProvider::utc_only();
+            if d.is_time_within_range() {
+                // (`Display` of a duration whose time part exceeds the limit is outside what a constructor can produce)
+                let _ = d.to_string();
+            }
             first_err(vec![r(d1.add(&d, None)), r(d.round_with_provider(some!(ropts(a)), None, &p)), r(d.total_with_provider(unit_req(a.smallest), None, &p)), r(d.as_temporal_string(sopts(a)))])
         }
         67 => r(okk!(duration_from_dur(&a.dur1)).as_temporal_string(sopts(a))),
@@ -526,7 +537,13 @@ pub fn run_op(c: &Case) -> R {
                 79 => r(z.hours_in_day_with_provider(p)),
                 80 => r(z.with_plain_time_and_provider(t1, p)),
                 81 => first_err(vec![r(z.to_plain_date_with_provider(p)), r(z.to_plain_time_with_provider(p)), r(z.to_plain_datetime_with_provider(p))]),
-                82 => first_err(vec![r(z.to_string_with_provider(p)), r(z.to_ixdtf_string_with_provider(doff(a.display), dtz(a.display / 2), dcal(a.display / 6), sopts(a), p))]),
+                82 => {
+                    // the convenience `Display` (process-wide provider) for real zone names and for names no provider knows
+                    if matches!(a.zone, ZoneArg::Named(_) | ZoneArg::Fixed(_)) {
+                        let _ = z.to_string();
+                    }
+                    first_err(vec![r(z.to_string_with_provider(p)), r(z.to_ixdtf_string_with_provider(doff(a.display), dtz(a.display / 2), dcal(a.display / 6), sopts(a), p))])
+                }
                 83 => first_err(vec![r(z.get_time_zone_transition_with_provider(TransitionDirection::Next, p).or_else(|e| if e.kind() == ErrorKind::Generic { Ok(None) } else { Err(e) })), r(z.get_time_zone_transition_with_provider(TransitionDirection::Previous, p).or_else(|e| if e.kind() == ErrorKind::Generic { Ok(None) } else { Err(e) }))]),
                 84 => {
                     let _ = (z.epoch_milliseconds(), z.epoch_nanoseconds(), z.to_instant(), z.compare_instant(&z2), z.calendar(), z.timezone());
@@ -584,6 +601,9 @@ pub fn run_op(c: &Case) -> R {
             let u = unit_req(a.smallest);
             let _ = (u.as_nanoseconds(), u.is_calendar_unit(), u.is_date_unit(), u.is_time_unit(), u.to_string());
             let _ = u.to_maximum_rounding_increment();
+            // the public operator and conversions of `Unit` (`Unit + usize`, `From<usize>`), with a raw operand
+            let raw = a.raw_ns as u64 as usize;
+            let _ = (u + raw, u + (a.inc as usize), u + usize::MAX, Unit::from(raw), u.max(unit_req(a.largest)));
             first_err(vec![r(RoundingIncrement::try_new(a.inc)), r(RoundingIncrement::try_from(a.inc_f)), r(UnitGroup::Date.validate_unit(unit_opt(a.largest), unit_opt(a.smallest))), r(UnitGroup::Time.validate_required_unit(unit_opt(a.largest), unit_opt(a.smallest))), r(UnitGroup::DateTime.validate_unit(unit_opt(a.largest), None))])
         }
         95 => {
@@ -738,6 +758,34 @@ pub fn run_op(c: &Case) -> R {
             let ym2 = okk!(PlainYearMonth::new_with_overflow(275760, 9, None, Calendar::default(), ArithmeticOverflow::Reject));
             first_err(vec![r(ym.until(&ym2, some!(settings(a)))), r(ym2.since(&ym, some!(settings(a)))), r(duration_from_dur(&a.dur1).and_then(|d| ym.add(&d, ov_req(a.overflow)))), r(duration_from_dur(&a.dur1).and_then(|d| ym2.subtract(&d, ov_req(a.overflow)))), r(ym.to_plain_date()), r(ym2.to_plain_date())])
         }
+        117 => {
+            // `Default::default()` of a public value type is a value like any other: every getter, printer and a few
+            // operations on it (optionally moved into the case's calendar)
+            let d = if a.mask & 1 != 0 { okk!(PlainDate::default().with_calendar(c1)) } else { PlainDate::default() };
+            let p = PlainDateTime::default();
+            let ym = PlainYearMonth::default();
+            let md = PlainMonthDay::default();
+            let _ = (d.year(), d.month(), d.month_code(), d.day(), d.day_of_week(), d.day_of_year(), d.days_in_month(), d.days_in_year(), d.months_in_year(), d.in_leap_year(), d.era(), d.era_year());
+            let _ = (d.week_of_year(), d.year_of_week(), d.days_in_week(), d.to_ixdtf_string(dcal(a.display)), d.to_string());
+            let _ = (p.year(), p.month(), p.month_code(), p.day(), p.day_of_week(), p.day_of_year(), p.days_in_month(), p.days_in_year(), p.months_in_year(), p.in_leap_year(), p.era(), p.era_year(), p.hour(), p.nanosecond());
+            let _ = (p.week_of_year(), p.year_of_week(), p.days_in_week(), p.to_string());
+            let _ = (ym.iso_year(), ym.iso_month(), ym.padded_iso_year_string(), ym.era(), ym.era_year(), ym.year(), ym.month(), ym.month_code(), ym.days_in_year(), ym.days_in_month(), ym.months_in_year(), ym.in_leap_year(), ym.calendar_id());
+            let _ = (ym.to_ixdtf_string(dcal(a.display)), ym.to_string(), md.iso_day(), md.iso_month(), md.iso_year(), md.calendar_id(), md.month_code(), md.to_ixdtf_string(dcal(a.display)), md.to_string());
+            let _ = (PlainTime::default().to_ixdtf_string(sopts(a)), Duration::default().to_string(), Calendar::default().identifier(), TimeZone::default().identifier());
+            first_err(vec![
+                r(duration_from_dur(&a.dur1).and_then(|x| d.add(&x, ov_opt(a.overflow)))),
+                r(d.until(&d1, some!(settings(a)))),
+                r(d1.since(&d, some!(settings(a)))),
+                r(d.to_plain_year_month()),
+                r(d.to_plain_month_day()),
+                r(d.to_plain_date_time(Some(t1))),
+                r(p.round(some!(ropts(a)))),
+                r(duration_from_dur(&a.dur1).and_then(|x| p.add(&x, ov_opt(a.overflow)))),
+                r(duration_from_dur(&a.dur1).and_then(|x| ym.add(&x, ov_req(a.overflow)))),
+                r(ym.to_plain_date()),
+                r(md.to_plain_date()),
+            ])
+        }
         _ => {
             // Display impls
             let p = okk!(PlainDateTime::from_date_and_time(okk!(d1.with_calendar(c1)), t1));
@@ -799,7 +847,7 @@ impl SubCheck for Sub {
     }
 }
 
-const OP_CLASS: [&str; 118] = [
+const OP_CLASS: [&str; 119] = [
     "PlainDate::new", "PlainDate::try_new", "PlainDate::new_with_overflow", "PlainDate::from_partial", "PlainDate::with", "PlainDate::add(raw)", "PlainDate::subtract(raw)", "PlainDate::add",
     "PlainDate::until", "PlainDate::since", "PlainDate::getters", "PlainDate::to_*", "PlainDate::to_string", "PlainDate::to_zoned", "PlainDate::from_str", "PlainDate::non-iso-arith",
     "PlainDateTime::new", "PlainDateTime::try_new", "PlainDateTime::new_with_overflow", "PlainDateTime::from_date_and_time", "PlainDateTime::from_partial", "PlainDateTime::with",
@@ -815,7 +863,7 @@ const OP_CLASS: [&str; 118] = [
     "ZonedDateTime::chain", "Now::with_system_info", "Calendar::from_str", "Calendar::from_utf8", "MonthCode::parse", "TimeZone::parse", "UtcOffset::parse", "enums::from_str",
     "RelativeTo::from_str", "options::helpers", "FsTzdbProvider::raw", "Calendar::*_from_partial", "Calendar::misc", "chain:zoned-string", "chain:date-add-until-add", "chain:datetime-round-until",
     "chain:instant-round-since", "chain:duration-round-total", "chain:date-string-reparse", "chain:duration-string-reparse", "capi::PlainDate", "capi::Instant", "capi::Duration", "options::to_string",
-    "limits:PlainDate", "limits:PlainDateTime", "limits:Instant", "limits:ZonedDateTime", "real-zones:zoned", "real-zones:wall", "limits:PlainTime", "limits:PlainYearMonth", "Display",
+    "limits:PlainDate", "limits:PlainDateTime", "limits:Instant", "limits:ZonedDateTime", "real-zones:zoned", "real-zones:wall", "limits:PlainTime", "limits:PlainYearMonth", "Default::default()", "Display",
 ];
 
 // ------------------------------------------------------------------------------------------
